@@ -240,6 +240,116 @@ Section W.
       pose proof (i_data prog c I i) as D. rewrite Hh, Hb, (i_closed prog c I i Hc), E in D. cbn [inflight app] in D.
       rewrite app_nil_r in D. symmetry. exact D.
   Qed.
+
+  (* ---------- progress: the only configurations that cannot move are the finished ones ---------- *)
+  Hypothesis cap_pos : forall i, 1 <= cap i.
+
+  Definition close_once (l : list mop) : Prop := forall a b i, l = a ++ MClose i :: b -> ~ In (MClose i) b.
+  Definition waits_after_close (l : list mop) (cl : nat -> bool) : Prop :=
+    forall a b i, l = a ++ MWait i :: b -> cl i = true \/ In (MClose i) a.
+
+  Record Inv2 (c : conf) : Prop := {
+    j_once : close_once (ops c);
+    j_closed : forall i, closed c i = true -> ~ In (MClose i) (ops c);
+    j_wac : waits_after_close (ops c) (closed c);
+    j_halt : forall i, w c i = WHalt -> done c i = true }.
+
+  Lemma once_tail o l : close_once (o :: l) -> close_once l.
+  Proof. intros H a b i E. apply (H (o :: a) b i). rewrite E. reflexivity. Qed.
+
+  Lemma inv2_init prog : close_once prog -> waits_after_close prog (fun _ => false) -> Inv2 (init prog).
+  Proof.
+    intros H1 H2. constructor; cbn [ops w closed done init]; auto; intros; discriminate.
+  Qed.
+
+  Lemma inv2_step c c' : Inv2 c -> step c c' -> Inv2 c'.
+  Proof.
+    intros I S. destruct S as [c i x r Ho Hc Hl|c i r Ho Hc|c i r Ho Hd|c r Ho|c i x b Hw Hb|c i Hw Hb Hc|c i x n Hw|c i x Hw|c i Hw];
+      pose proof (j_once c I) as O1; pose proof (j_wac c I) as W1.
+    - rewrite Ho in O1, W1. constructor; cbn [ops w closed done].
+      + exact (once_tail _ _ O1).
+      + intros k Hk Hin. apply (j_closed c I k Hk). rewrite Ho. right. exact Hin.
+      + intros a b k E. destruct (W1 (MSend i x :: a) b k) as [A|[A|A]]; [rewrite E; reflexivity|left; exact A|discriminate|right; exact A].
+      + exact (j_halt c I).
+    - rewrite Ho in O1, W1. constructor; cbn [ops w closed done].
+      + exact (once_tail _ _ O1).
+      + intros k Hk Hin. thr k i.
+        * exact (O1 [] r i eq_refl Hin).
+        * apply (j_closed c I k Hk). rewrite Ho. right. exact Hin.
+      + intros a b k E. destruct (W1 (MClose i :: a) b k) as [A|[A|A]]; [rewrite E; reflexivity| | |].
+        * left. thr k i; [reflexivity|exact A].
+        * injection A as <-. left. apply updf_same.
+        * right. exact A.
+      + exact (j_halt c I).
+    - rewrite Ho in O1, W1. constructor; cbn [ops w closed done].
+      + exact (once_tail _ _ O1).
+      + intros k Hk Hin. apply (j_closed c I k Hk). rewrite Ho. right. exact Hin.
+      + intros a b k E. destruct (W1 (MWait i :: a) b k) as [A|[A|A]]; [rewrite E; reflexivity|left; exact A|discriminate|right; exact A].
+      + exact (j_halt c I).
+    - rewrite Ho in O1, W1. constructor; cbn [ops w closed done].
+      + exact (once_tail _ _ O1).
+      + intros k Hk Hin. apply (j_closed c I k Hk). rewrite Ho. right. exact Hin.
+      + intros a b k E. destruct (W1 (MRet :: a) b k) as [A|[A|A]]; [rewrite E; reflexivity|left; exact A|discriminate|right; exact A].
+      + exact (j_halt c I).
+    - constructor; cbn [ops w closed done]; [exact O1|exact (j_closed c I)|exact W1|].
+      intros k Hk. thr k i; [discriminate|exact (j_halt c I k Hk)].
+    - constructor; cbn [ops w closed done]; [exact O1|exact (j_closed c I)|exact W1|].
+      intros k Hk. thr k i; [discriminate|exact (j_halt c I k Hk)].
+    - constructor; cbn [ops w closed done]; [exact O1|exact (j_closed c I)|exact W1|].
+      intros k Hk. thr k i; [discriminate|exact (j_halt c I k Hk)].
+    - constructor; cbn [ops w closed done]; [exact O1|exact (j_closed c I)|exact W1|].
+      intros k Hk. thr k i; [discriminate|exact (j_halt c I k Hk)].
+    - constructor; cbn [ops w closed done]; [exact O1|exact (j_closed c I)|exact W1|].
+      intros k Hk. thr k i; [reflexivity|]. pose proof (j_halt c I k Hk) as A. exact A.
+  Qed.
+
+  (* a configuration in which nothing can move: main has finished its program and every writer whose
+     channel was closed has halted - no deadlock, no goroutine left waiting on a closed channel *)
+  Theorem stuck_is_finished prog c : Inv prog c -> Inv2 c -> (forall c', ~ step c c') ->
+    ops c = [] /\ forall i, closed c i = true -> w c i = WHalt /\ done c i = true.
+  Proof.
+    intros I J Hn.
+    assert (Hw : forall i, w c i = WHalt \/ (w c i = WLoop /\ buf c i = [] /\ closed c i = false)).
+    { intros i. destruct (w c i) as [|x n| |] eqn:E.
+      - destruct (buf c i) as [|x b] eqn:Eb.
+        + destruct (closed c i) eqn:Ec; [exfalso; exact (Hn _ (s_eof c i E Eb Ec))|right; repeat split].
+        + exfalso. exact (Hn _ (s_recv c i x b E Eb)).
+      - exfalso. destruct n as [|n]; [exact (Hn _ (s_write c i x E))|exact (Hn _ (s_tick c i x n E))].
+      - exfalso. exact (Hn _ (s_done c i E)).
+      - left. reflexivity. }
+    split.
+    - destruct (ops c) as [|o r] eqn:Ho; [reflexivity|exfalso]. destruct o as [i x|i|i|].
+      + assert (Hc : closed c i = false).
+        { destruct (closed c i) eqn:Ec; [|reflexivity]. pose proof (i_closed prog c I i Ec) as Z.
+          rewrite Ho, sends_cons_same in Z. discriminate. }
+        destruct (Hw i) as [Hh|(Hl & Hb & _)].
+        * destruct (i_fin prog c I i (or_intror Hh)) as [_ C]. congruence.
+        * apply (Hn _ (s_send c i x r Ho Hc ltac:(rewrite Hb; cbn; pose proof (cap_pos i); lia))).
+      + destruct (closed c i) eqn:Ec.
+        * apply (j_closed c J i Ec). rewrite Ho. left. reflexivity.
+        * exact (Hn _ (s_close c i r Ho Ec)).
+      + pose proof (j_wac c J [] r i) as Wc. rewrite Ho in Wc. destruct (Wc eq_refl) as [Ec|[]].
+        destruct (Hw i) as [Hh|(_ & _ & C)]; [|congruence].
+        exact (Hn _ (s_wait c i r Ho (j_halt c J i Hh))).
+      + exact (Hn _ (s_ret c r Ho)).
+    - intros i Ec. destruct (Hw i) as [Hh|(_ & _ & C)]; [|congruence]. split; [exact Hh|exact (j_halt c J i Hh)].
+  Qed.
+
+  Theorem inv2_reach prog c : close_once prog -> waits_after_close prog (fun _ => false) -> reach (init prog) c -> Inv2 c.
+  Proof. intros H1 H2. induction 1 as [|c c' _ IH S]; [apply inv2_init; assumption|exact (inv2_step c c' IH S)]. Qed.
+
+  (* a close operation of the program that is no longer ahead of main has been executed *)
+  Lemma closed_when_gone prog c : reach (init prog) c -> forall i, In (MClose i) prog -> ~ In (MClose i) (ops c) -> closed c i = true.
+  Proof.
+    induction 1 as [|c c' _ IH S]; intros i Hin Hnot; [contradiction|].
+    destruct S as [c j x r Ho Hc Hl|c j r Ho Hc|c j r Ho Hd|c r Ho|c j x b Hw Hb|c j Hw Hb Hc|c j x n Hw|c j x Hw|c j Hw];
+      cbn [ops closed] in *; try (apply IH; assumption).
+    - apply IH; [exact Hin|]. rewrite Ho. intros [C|C]; [discriminate|exact (Hnot C)].
+    - destruct (Nat.eq_dec i j) as [->|Hne]; [apply updf_same|]. rewrite updf_other by exact Hne.
+      apply IH; [exact Hin|]. rewrite Ho. intros [C|C]; [injection C as C; congruence|exact (Hnot C)].
+    - apply IH; [exact Hin|]. rewrite Ho. intros [C|C]; [discriminate|exact (Hnot C)].
+    - apply IH; [exact Hin|]. rewrite Ho. intros [C|C]; [discriminate|exact (Hnot C)].
+  Qed.
 End W.
 
 (* ---------- the program of rtcmfilter / displayrtcm3 ---------- *)
@@ -359,5 +469,73 @@ Section Std.
     intros Hr Hret i Hi.
     rewrite (flushed_at_return V lat cap _ c (std_no_send_after_close k msgs) (std_waits_before_return k msgs) Hr Hret i).
     rewrite sends_std. destruct (Nat.ltb_spec i k); [reflexivity|lia].
+  Qed.
+  (* the writers whose channels a program closes, in order *)
+  Definition closes (l : list (mop V)) : list nat :=
+    flat_map (fun o => match o with MClose i => [i] | _ => [] end) l.
+  Lemma closes_app a b : closes (a ++ b) = closes a ++ closes b.
+  Proof. apply flat_map_app. Qed.
+  Lemma in_closes i l : In (MClose i) l -> In i (closes l).
+  Proof. intros H. unfold closes. apply in_flat_map. exists (MClose i). split; [exact H|left; reflexivity]. Qed.
+
+  Lemma nodup_close_once l : NoDup (closes l) -> close_once V l.
+  Proof.
+    intros ND a b i E Hin. rewrite E, closes_app in ND. cbn [closes flat_map app] in ND.
+    apply NoDup_remove_2 in ND. apply ND. apply in_or_app. right. exact (in_closes i b Hin).
+  Qed.
+
+  Lemma closes_nonclose l : (forall o, In o l -> match o with MClose _ => False | _ => True end) -> closes l = [].
+  Proof.
+    induction l as [|o l IH]; intros H; [reflexivity|]. cbn [closes flat_map].
+    pose proof (H o (or_introl eq_refl)) as Ho. destruct o; try contradiction; cbn [app]; apply IH; intros o' Ho'; apply H; right; exact Ho'.
+  Qed.
+
+  Lemma std_close_once k msgs : close_once V (std_prog k msgs).
+  Proof.
+    apply nodup_close_once. unfold std_prog. rewrite !closes_app.
+    rewrite (closes_nonclose (flat_map _ msgs)).
+    2:{ intros o Ho. apply in_flat_map in Ho. destruct Ho as (m & _ & Ho). apply in_map_iff in Ho. destruct Ho as (j & <- & _). exact I. }
+    rewrite (closes_nonclose (map MWait (seq 0 k))).
+    2:{ intros o Ho. apply in_map_iff in Ho. destruct Ho as (j & <- & _). exact I. }
+    cbn [closes flat_map app]. rewrite app_nil_r.
+    assert (E : closes (map MClose (seq 0 k)) = seq 0 k).
+    { generalize (seq 0 k). intros l. induction l as [|x l IH]; [reflexivity|]. cbn [map closes flat_map app]. f_equal. exact IH. }
+    rewrite E. apply seq_NoDup.
+  Qed.
+
+  Lemma std_waits_after_close k msgs : waits_after_close V (std_prog k msgs) (fun _ => false).
+  Proof.
+    intros a b i E. right. unfold std_prog in E. symmetry in E.
+    destruct (split_in_tail _ _ a b (MWait i) (rows_all_sends k msgs (MWait i) eq_refl) E) as (c & Hc & Ha).
+    assert (F : Forall (fun s : mop V => s <> MWait i) (map MClose (seq 0 k))).
+    { apply Forall_forall. intros s Hs. apply in_map_iff in Hs. destruct Hs as (j & <- & _). discriminate. }
+    destruct (split_in_tail _ _ c b (MWait i) F (eq_sym Hc)) as (d & Hd & Hcd).
+    assert (Hi : i < k).
+    { assert (Hin : In (MWait i) (map MWait (seq 0 k) ++ [MRet])) by (rewrite Hd; apply in_or_app; right; left; reflexivity).
+      apply in_app_or in Hin. destruct Hin as [Hin|[Hin|[]]]; [|discriminate].
+      apply in_map_iff in Hin. destruct Hin as (j & Hj & Hs). injection Hj as <-. apply in_seq in Hs. lia. }
+    rewrite Ha, Hcd. apply in_or_app. right. apply in_or_app. left. apply in_map. apply in_seq. lia.
+  Qed.
+
+  (* no deadlock: a configuration of the standard program in which nothing can move is the finished one -
+     main has run its whole program and every writer 0..k-1 has halted having written the messages *)
+  Theorem std_no_deadlock lat cap k msgs c : (forall i, 1 <= cap i) ->
+    reach V lat cap (init V (std_prog k msgs)) c -> (forall c', ~ step V lat cap c c') ->
+    ops V c = [] /\ forall i, i < k -> w V c i = WHalt V /\ wrote V c i = msgs.
+  Proof.
+    intros Hcap Hr Hn.
+    pose proof (inv_reach V lat cap _ c (std_no_send_after_close k msgs) (std_waits_before_return k msgs) Hr) as I.
+    pose proof (inv2_reach V lat cap _ c (std_close_once k msgs) (std_waits_after_close k msgs) Hr) as J.
+    destruct (stuck_is_finished V lat cap Hcap _ c I J Hn) as [Ho Hc].
+    split; [exact Ho|]. intros i Hi.
+    assert (Hcl : closed V c i = true).
+    { apply (closed_when_gone V lat cap (std_prog k msgs) c Hr i).
+      - unfold std_prog. apply in_or_app. right. apply in_or_app. left. apply in_map. apply in_seq. lia.
+      - rewrite Ho. intros []. }
+    destruct (Hc i Hcl) as [Hh _]. split; [exact Hh|].
+    pose proof (i_data V _ c I i) as D.
+    destruct (i_fin V _ c I i (or_intror Hh)) as [Hb _].
+    rewrite Hh, Hb, Ho in D. cbn in D. rewrite app_nil_r in D. rewrite <- D, sends_std.
+    destruct (Nat.ltb_spec i k); [reflexivity|lia].
   Qed.
 End Std.
